@@ -18,6 +18,37 @@ pub struct Fail {
     pub step: usize,
     /// stable signature used to match known findings
     pub sig: String,
+    /// when several oracle groups failed on the same post-step state: the individual failures
+    pub parts: Vec<Fail>,
+}
+
+impl Fail {
+    /// The (signature, message) to report for property `prop`: the first part tagged with it.
+    pub fn for_prop(&self, prop: &str) -> (String, String) {
+        for p in &self.parts {
+            if p.tags.iter().any(|t| *t == prop) {
+                return (p.sig.clone(), p.msg.clone());
+            }
+        }
+        (self.sig.clone(), self.msg.clone())
+    }
+
+    /// Merges failures observed on one and the same state.
+    pub fn merge(mut fails: Vec<Fail>) -> Fail {
+        if fails.len() == 1 {
+            return fails.pop().unwrap();
+        }
+        let mut tags: Vec<&'static str> = Vec::new();
+        for f in &fails {
+            for t in &f.tags {
+                if !tags.contains(t) {
+                    tags.push(t);
+                }
+            }
+        }
+        let first = fails[0].clone();
+        Fail { tags, msg: first.msg, step: first.step, sig: first.sig, parts: fails }
+    }
 }
 
 pub type R<T = ()> = Result<T, Fail>;
@@ -111,6 +142,9 @@ pub struct Session<'c, W: WorldDriver> {
     pub extra_tag: Option<&'static str>,
     /// if set, failures are attributed to these tags only (probe of an untouched world)
     pub only_tag: Option<&'static str>,
+    /// property of the op that just ran, added to failures of the step that follows it
+    /// (e.g. C07 after ecs_iter_destroy!: "surviving entities keep their handles and values")
+    pub op_tag: Option<&'static str>,
     /// archetypes (sim, arch) whose capacity may legitimately have grown in this step
     pub growth_ok: BTreeSet<(usize, usize)>,
     /// handles (sim, handle index) touched by the current op: probed on every path
@@ -151,7 +185,12 @@ impl<'c, W: WorldDriver> Session<'c, W> {
         }
         // C19: every oracle must hold in every configuration
         t.push("C19");
-        Fail { tags: t, msg, step: self.step, sig: sig.to_string() }
+        if let Some(o) = self.op_tag {
+            if !self.post_panic && self.only_tag.is_none() && !t.contains(&o) {
+                t.push(o);
+            }
+        }
+        Fail { tags: t, msg, step: self.step, sig: sig.to_string(), parts: Vec::new() }
     }
 
     pub fn masked(&self, a: usize, vals: &[u64]) -> Vec<u64> {
@@ -189,6 +228,7 @@ impl<'c, W: WorldDriver> Session<'c, W> {
             post_panic: false,
             extra_tag: None,
             only_tag: None,
+            op_tag: None,
             growth_ok: BTreeSet::new(),
             touched: BTreeSet::new(),
             ticks: Vec::new(),
@@ -244,7 +284,12 @@ impl<'c, W: WorldDriver> Session<'c, W> {
     /// leaks are tolerated and recorded.
     pub fn note_unwound(&mut self) {
         self.post_panic = true;
-        self.injected_fired |= reg(|r| r.fired);
+        let fired = reg(|r| r.fired);
+        self.injected_fired |= fired;
+        let live_total: usize = self.sims.iter().map(|s| s.archs.iter().map(|m| m.live.len()).sum::<usize>()).sum();
+        if fired && live_total >= 2 {
+            self.label("injected_fired_ge2_live");
+        }
         // anything live in the registry that no model owns has been leaked by the unwinding
         let mut owned: BTreeSet<u64> = BTreeSet::new();
         for sim in &self.sims {
@@ -290,6 +335,7 @@ impl<'c, W: WorldDriver> Session<'c, W> {
                 return out;
             }
         };
+        comps::suspend();
         let mut result: R = s.post_step();
         if result.is_ok() {
             for (i, op) in case.ops.iter().enumerate() {
@@ -304,7 +350,9 @@ impl<'c, W: WorldDriver> Session<'c, W> {
                         comps::arm(inj.site, inj.k);
                     }
                 }
+                comps::resume();
                 let r = s.apply(op);
+                comps::suspend();
                 comps::disarm();
                 if cfg.count_ticks {
                     s.ticks.push([comps::ticks(Site::Closure), comps::ticks(Site::Clone), comps::ticks(Site::Drop)]);
@@ -331,7 +379,9 @@ impl<'c, W: WorldDriver> Session<'c, W> {
             if cfg.count_ticks {
                 comps::reset_ticks();
             }
+            comps::resume();
             result = s.teardown();
+            comps::suspend();
             comps::disarm();
             if cfg.count_ticks {
                 s.ticks.push([comps::ticks(Site::Closure), comps::ticks(Site::Clone), comps::ticks(Site::Drop)]);
@@ -371,6 +421,12 @@ impl<'c, W: WorldDriver> Session<'c, W> {
         let narch = self.infos.len();
         // failures of the step that follows a forged probe are C03's (the world must be unchanged)
         self.only_tag = None;
+        self.op_tag = match op {
+            Op::IterDestroy { .. } | Op::XIterDestroy { .. } => Some("C07"),
+            Op::Write { .. } => Some("C02"),
+            Op::CloneWorld { .. } => Some("C13"),
+            _ => None,
+        };
         match *op {
             Op::Create { sim, arch, path } => {
                 let si = self.sim_ix(sim);
@@ -508,6 +564,7 @@ impl<'c, W: WorldDriver> Session<'c, W> {
                 self.do_forge(si, pick(arch, narch), class, x, y, route)
             }
             Op::Probe => {
+                comps::suspend();
                 let saved = self.rot;
                 let r = self.probe_all(Intensity::Full);
                 self.rot = saved;
@@ -548,7 +605,8 @@ impl<'c, W: WorldDriver> Session<'c, W> {
                 if dup {
                     let wrapped = self.cfg.wrapping && self.sims[si].archs[a].max_gen_seen == u32::MAX;
                     if !wrapped {
-                        return Err(self.fail(&["C08", "C01"], "handle-reissued", format!("create on {} returned handle {:?} which this world already issued earlier", self.infos[a].name, raw)));
+                        let tags: &[&'static str] = if self.sims[si].is_clone { &["C08", "C01", "C13"] } else { &["C08", "C01"] };
+                        return Err(self.fail(tags, "handle-reissued", format!("create on {} returned handle {:?} which this world{} already issued earlier", self.infos[a].name, raw, if self.sims[si].is_clone { " (a clone: handles issued before the clone count)" } else { "" })));
                     }
                     self.label("wrap_reuse");
                 }
@@ -1107,7 +1165,19 @@ impl<'c, W: WorldDriver> Session<'c, W> {
             Err(m) => {
                 if m.contains(comps::INJECTED) {
                     self.note_unwound();
-                    // the driver's closure ticks before it writes: nothing was written
+                    // the closure of an earlier visit may already have written (scanning paths):
+                    // the column holds either the old or the new stamp
+                    if live {
+                        let got = catch(|| W::lookup(&mut self.sims[si].w, a, LookupPath::AResolveSlices, Key::Ent(rec.raw))).ok().flatten().map(|o| o.vals);
+                        let mask = self.infos[a].masks[col];
+                        if let Some(vals) = got {
+                            if vals.get(col) == Some(&(val & mask)) {
+                                let e = self.sims[si].archs[a].live.get_mut(&rec.raw).unwrap();
+                                e.vals[col] = val & mask;
+                                e.writes += 1;
+                            }
+                        }
+                    }
                     return Ok(());
                 }
                 return Err(self.fail(&["C01", "C02"], "write-panic", format!("write through {:?} with {} to {:?} in {} panicked: {}", path, key.kind_name(), rec.raw, self.infos[a].name, m)));
@@ -1232,6 +1302,10 @@ impl<'c, W: WorldDriver> Session<'c, W> {
             }
         }
         Ok(())
+    }
+
+    pub fn judge_iteration_pub(&mut self, si: usize, what: &str, matches: &[(usize, Vec<usize>)], obs: &[Obs], brk: Option<usize>, reads_values: bool) -> R {
+        self.judge_iteration(si, what, matches, obs, brk, reads_values)
     }
 
     pub fn do_iterate(&mut self, si: usize, a: usize, path: IterPath, brk: u8) -> R {
@@ -1448,8 +1522,15 @@ impl<'c, W: WorldDriver> Session<'c, W> {
                 return Err(self.fail(&["C13"], "clone-len-capacity", format!("clone of {} has len {} capacity {}, original has len {} capacity {}", self.infos[a].name, l2, c2, l1, c1)));
             }
         }
+        for a in 0..self.infos.len() {
+            let (d1, d2) = (W::dump(&self.sims[si].w, a), W::dump(&self.sims[ni].w, a));
+            if d1 != d2 {
+                return Err(self.fail(&["C13"], "clone-bookkeeping", format!("clone of {} does not carry the original's bookkeeping (generations, free list, version): original version {} free_head {:#x} slots {:x?}; clone version {} free_head {:#x} slots {:x?}", self.infos[a].name, d1.version, d1.free_head, &d1.slots[..d1.slots.len().min(16)], d2.version, d2.free_head, &d2.slots[..d2.slots.len().min(16)])));
+            }
+        }
         self.extra_tag = Some("C13");
         let saved = self.rot;
+        comps::suspend();
         let r = self.probe_sim(ni, Intensity::Full);
         self.rot = saved;
         self.extra_tag = None;
